@@ -116,7 +116,9 @@ def _band_chunk(cases):
     margin = 0.03
     quat = ' quat="0.9 0.1 0.3 0.2"' if rot else ""
     g = lambda n, t: f'<body name="{n}"><freejoint/><geom name="g{n}" type="{t}" size="{size[t]}" margin="{margin}"{quat if t != "sphere" else ""}/></body>'
-    xml = f'<mujoco><option gravity="0 0 0"/><worldbody>{g("a", ta)}{g("b", tb)}<body pos="3 3 3"><freejoint/><geom type="sphere" size="0.1"/></body></worldbody></mujoco>'
+    # box-box with a margin is only accepted without MuJoCo's multi-contact CCD (put_model says so): the broadphase question is the same without it
+    flag = '<flag multiccd="disable" nativeccd="disable"/>' if ta == tb == "box" else ""
+    xml = f'<mujoco><option gravity="0 0 0">{flag}</option><worldbody>{g("a", ta)}{g("b", tb)}<body pos="3 3 3"><freejoint/><geom type="sphere" size="0.1"/></body></worldbody></mujoco>'
     mjm = mujoco.MjModel.from_xml_string(xml)
     m = mjw.put_model(mjm)
     # put b on the signed axis at the distance where the surfaces are gapfrac * (2 margin) apart (bisection on MuJoCo's geom distance)
